@@ -252,4 +252,69 @@ theorem list_erase (acc : Int → Bool) (sh : Shard) (mode : ListMode) (early : 
   | viaSearch => simp only [hr, search_erase, listFrom_erase]
 
 
+/-! ### completeness -/
+
+theorem stepDoc_mono (acc : Int → Bool) (sh : Shard) (maxRepo : Nat) (st : LoopSt) (i : Nat) (d : Doc) (f : FileOut)
+    (h : f ∈ st.files) : f ∈ (stepDoc acc sh maxRepo st i d).files := by
+  unfold stepDoc
+  have hfiles : (track st d).files = st.files := by unfold track; split <;> rfl
+  split
+  · exact h
+  · split
+    · exact h
+    · split
+      · rw [hfiles]; exact h
+      · simp [hfiles, h]
+
+theorem loopFrom_mono (acc : Int → Bool) (sh : Shard) (maxRepo : Nat) (ds : List Doc) (st : LoopSt) (i : Nat) (f : FileOut)
+    (h : f ∈ st.files) : f ∈ (loopFrom acc sh maxRepo st i ds).files := by
+  induction ds generalizing st i with
+  | nil => exact h
+  | cons d ds ih => exact ih _ _ (stepDoc_mono acc sh maxRepo st i d f h)
+
+/-- without a per-repository limit, an admissible matching document is collected -/
+theorem stepDoc_adds (acc : Int → Bool) (sh : Shard) (st : LoopSt) (i : Nat) (d : Doc) (r : Repo)
+    (hr : sh.repos[d.repo]? = some r) (hacc : acc r.tenant = true) (htomb : r.tomb = false) (hft : d.ftomb = false)
+    (hc : d.count ≠ 0) : ⟨d.repo, i, r.name, r.id, d.name⟩ ∈ (stepDoc acc sh 0 st i d).files := by
+  unfold stepDoc
+  simp only [hr]
+  have hs : skipDoc acc r 0 st d = false := by simp [skipDoc, hacc, htomb, hft]
+  simp [hs, hc]
+
+theorem loopFrom_complete (acc : Int → Bool) (sh : Shard) (ds pre : List Doc) (st : LoopSt) (j : Nat) (d : Doc) (r : Repo)
+    (hd : ds[j]? = some d) (hr : sh.repos[d.repo]? = some r) (hacc : acc r.tenant = true) (htomb : r.tomb = false)
+    (hft : d.ftomb = false) (hc : d.count ≠ 0) :
+    ⟨d.repo, pre.length + j, r.name, r.id, d.name⟩ ∈ (loopFrom acc sh 0 st pre.length ds).files := by
+  induction ds generalizing pre st j with
+  | nil => simp at hd
+  | cons x xs ih =>
+    simp only [loopFrom]
+    cases j with
+    | zero =>
+      simp at hd; subst hd
+      exact loopFrom_mono _ _ _ _ _ _ _ (stepDoc_adds acc sh st pre.length x r hr hacc htomb hft hc)
+    | succ k =>
+      have := ih (pre ++ [x]) (stepDoc acc sh 0 st pre.length x) k (by simpa using hd)
+      simp only [List.length_append, List.length_singleton] at this
+      have e : pre.length + 1 + k = pre.length + (k + 1) := by omega
+      rw [e] at this
+      exact this
+
+
+/-! ### the Spec predicates -/
+
+theorem pairOk_of_mem (acc : Int → Bool) (sh : Shard) (f : Repo → String) (g : SubRepo → String) (p : String × String)
+    (h : ∃ r ∈ sh.repos, acc r.tenant = true ∧ p ∈ repoPairs f g r) : pairOk acc sh f g p = true := by
+  obtain ⟨r, hr, hacc, hp⟩ := h
+  unfold pairOk
+  rw [List.any_eq_true]
+  exact ⟨r, hr, by simp [hacc, hp]⟩
+
+theorem finalIds_mem (ws : List (Nat × Nat)) (id : Nat) (h : id ∈ finalIds ws) : ∃ w ∈ ws, w.1 = id := by
+  unfold finalIds at h
+  rw [List.mem_mergeSort] at h
+  have := List.mem_eraseDups.1 h
+  rw [List.mem_map] at this
+  exact this
+
 end ZoektModel.C23
